@@ -836,91 +836,91 @@ package trend
 // what each New* function returns, read off its literal: fresh, pairwise separate sub-objects, fields equal to the
 // arguments / constants they are initialised with (transitively through nested constructors); proved, not assumed
 //@ func NewAlligatorStrategy
-//@ ensures[C06] "fresh-and-separate-objects" fresh(result) && fresh(result.Jaw) && fresh(result.Lip) && fresh(result.Teeth) && distinct(result.Jaw, result.Lip, result.Teeth)
-//@ ensures[C06] "configured-as-given" result.Jaw.Period == 13 && result.Lip.Period == 5 && result.Teeth.Period == 8
+//@ ensures[C04,C05,C06,C14] "fresh-and-separate-objects" fresh(result) && fresh(result.Jaw) && fresh(result.Lip) && fresh(result.Teeth) && distinct(result.Jaw, result.Lip, result.Teeth)
+//@ ensures[C04,C05,C06,C14] "configured-as-given" result.Jaw.Period == 13 && result.Lip.Period == 5 && result.Teeth.Period == 8
 
 //@ func NewAlligatorStrategyWith
-//@ ensures[C06] "fresh-and-separate-objects" fresh(result) && fresh(result.Jaw) && fresh(result.Lip) && fresh(result.Teeth) && distinct(result.Jaw, result.Lip, result.Teeth)
-//@ ensures[C06] "configured-as-given" result.Jaw.Period == jawPeriod && result.Lip.Period == lipPeriod && result.Teeth.Period == teethPeriod
+//@ ensures[C04,C05,C06,C14] "fresh-and-separate-objects" fresh(result) && fresh(result.Jaw) && fresh(result.Lip) && fresh(result.Teeth) && distinct(result.Jaw, result.Lip, result.Teeth)
+//@ ensures[C04,C05,C06,C14] "configured-as-given" result.Jaw.Period == jawPeriod && result.Lip.Period == lipPeriod && result.Teeth.Period == teethPeriod
 
 //@ func NewApoStrategy
-//@ ensures[C06] "fresh-and-separate-objects" fresh(result) && fresh(result.Apo)
-//@ ensures[C06] "configured-as-given" result.Apo.FastPeriod == 14 && result.Apo.FastSmoothing == 2 && result.Apo.SlowPeriod == 30 && result.Apo.SlowSmoothing == 2
+//@ ensures[C04,C05,C06,C14] "fresh-and-separate-objects" fresh(result) && fresh(result.Apo)
+//@ ensures[C04,C05,C06,C14] "configured-as-given" result.Apo.FastPeriod == 14 && result.Apo.FastSmoothing == 2 && result.Apo.SlowPeriod == 30 && result.Apo.SlowSmoothing == 2
 
 //@ func NewAroonStrategy
-//@ ensures[C06] "fresh-and-separate-objects" fresh(result) && fresh(result.Aroon)
-//@ ensures[C06] "configured-as-given" result.Aroon.Period == 25
+//@ ensures[C04,C05,C06,C14] "fresh-and-separate-objects" fresh(result) && fresh(result.Aroon)
+//@ ensures[C04,C05,C06,C14] "configured-as-given" result.Aroon.Period == 25
 
 //@ func NewBopStrategy
-//@ ensures[C06] "fresh-and-separate-objects" fresh(result) && fresh(result.Bop)
+//@ ensures[C04,C05,C06,C14] "fresh-and-separate-objects" fresh(result) && fresh(result.Bop)
 
 //@ func NewCciStrategy
-//@ ensures[C06] "fresh-and-separate-objects" fresh(result) && fresh(result.Cci)
-//@ ensures[C06] "configured-as-given" result.Cci.Period == 20
+//@ ensures[C04,C05,C06,C14] "fresh-and-separate-objects" fresh(result) && fresh(result.Cci)
+//@ ensures[C04,C05,C06,C14] "configured-as-given" result.Cci.Period == 20
 
 //@ func NewDemaStrategy
-//@ ensures[C06] "fresh-and-separate-objects" fresh(result)
+//@ ensures[C04,C05,C06,C14] "fresh-and-separate-objects" fresh(result)
 
 //@ func NewEnvelopeStrategy
-//@ ensures[C06] "fresh-and-separate-objects" fresh(result)
+//@ ensures[C04,C05,C06,C14] "fresh-and-separate-objects" fresh(result)
 
 //@ func NewGoldenCrossStrategy
-//@ ensures[C06] "fresh-and-separate-objects" fresh(result) && fresh(result.FastEma) && fresh(result.SlowEma) && distinct(result.FastEma, result.SlowEma)
-//@ ensures[C06] "configured-as-given" result.FastEma.Period == 50 && result.FastEma.Smoothing == 2 && result.SlowEma.Period == 200 && result.SlowEma.Smoothing == 2
+//@ ensures[C04,C05,C06,C14] "fresh-and-separate-objects" fresh(result) && fresh(result.FastEma) && fresh(result.SlowEma) && distinct(result.FastEma, result.SlowEma)
+//@ ensures[C04,C05,C06,C14] "configured-as-given" result.FastEma.Period == 50 && result.FastEma.Smoothing == 2 && result.SlowEma.Period == 200 && result.SlowEma.Smoothing == 2
 
 //@ func NewGoldenCrossStrategyWith
-//@ ensures[C06] "fresh-and-separate-objects" fresh(result) && fresh(result.FastEma) && fresh(result.SlowEma) && distinct(result.FastEma, result.SlowEma)
-//@ ensures[C06] "configured-as-given" result.FastEma.Period == fastPeriod && result.FastEma.Smoothing == 2 && result.SlowEma.Period == slowPeriod && result.SlowEma.Smoothing == 2
+//@ ensures[C04,C05,C06,C14] "fresh-and-separate-objects" fresh(result) && fresh(result.FastEma) && fresh(result.SlowEma) && distinct(result.FastEma, result.SlowEma)
+//@ ensures[C04,C05,C06,C14] "configured-as-given" result.FastEma.Period == fastPeriod && result.FastEma.Smoothing == 2 && result.SlowEma.Period == slowPeriod && result.SlowEma.Smoothing == 2
 
 //@ func NewKamaStrategy
-//@ ensures[C06] "fresh-and-separate-objects" fresh(result) && fresh(result.Kama)
-//@ ensures[C06] "configured-as-given" result.Kama.ErPeriod == 10 && result.Kama.FastScPeriod == 2 && result.Kama.SlowScPeriod == 30
+//@ ensures[C04,C05,C06,C14] "fresh-and-separate-objects" fresh(result) && fresh(result.Kama)
+//@ ensures[C04,C05,C06,C14] "configured-as-given" result.Kama.ErPeriod == 10 && result.Kama.FastScPeriod == 2 && result.Kama.SlowScPeriod == 30
 
 //@ func NewKamaStrategyWith
-//@ ensures[C06] "fresh-and-separate-objects" fresh(result) && fresh(result.Kama)
-//@ ensures[C06] "configured-as-given" result.Kama.ErPeriod == erPeriod && result.Kama.FastScPeriod == fastScPeriod && result.Kama.SlowScPeriod == slowScPeriod
+//@ ensures[C04,C05,C06,C14] "fresh-and-separate-objects" fresh(result) && fresh(result.Kama)
+//@ ensures[C04,C05,C06,C14] "configured-as-given" result.Kama.ErPeriod == erPeriod && result.Kama.FastScPeriod == fastScPeriod && result.Kama.SlowScPeriod == slowScPeriod
 
 //@ func NewKdjStrategy
-//@ ensures[C06] "fresh-and-separate-objects" fresh(result) && fresh(result.Kdj) && fresh(result.Kdj.MovingMax) && fresh(result.Kdj.MovingMin) && fresh(result.Kdj.Sma1) && fresh(result.Kdj.Sma2) && distinct(result.Kdj.Sma1, result.Kdj.Sma2)
-//@ ensures[C06] "configured-as-given" result.Kdj.MovingMax.Period == 9 && result.Kdj.MovingMin.Period == 9 && result.Kdj.Sma1.Period == 3 && result.Kdj.Sma2.Period == 3
+//@ ensures[C04,C05,C06,C14] "fresh-and-separate-objects" fresh(result) && fresh(result.Kdj) && fresh(result.Kdj.MovingMax) && fresh(result.Kdj.MovingMin) && fresh(result.Kdj.Sma1) && fresh(result.Kdj.Sma2) && distinct(result.Kdj.Sma1, result.Kdj.Sma2)
+//@ ensures[C04,C05,C06,C14] "configured-as-given" result.Kdj.MovingMax.Period == 9 && result.Kdj.MovingMin.Period == 9 && result.Kdj.Sma1.Period == 3 && result.Kdj.Sma2.Period == 3
 
 //@ func NewMacdStrategy
-//@ ensures[C06] "fresh-and-separate-objects" fresh(result) && fresh(result.Macd) && fresh(result.Macd.Ema1) && fresh(result.Macd.Ema2) && fresh(result.Macd.Ema3) && distinct(result.Macd.Ema1, result.Macd.Ema2, result.Macd.Ema3)
-//@ ensures[C06] "configured-as-given" result.Macd.Ema1.Period == 12 && result.Macd.Ema1.Smoothing == 2 && result.Macd.Ema2.Period == 26 && result.Macd.Ema2.Smoothing == 2 && result.Macd.Ema3.Period == 9 && result.Macd.Ema3.Smoothing == 2
+//@ ensures[C04,C05,C06,C14] "fresh-and-separate-objects" fresh(result) && fresh(result.Macd) && fresh(result.Macd.Ema1) && fresh(result.Macd.Ema2) && fresh(result.Macd.Ema3) && distinct(result.Macd.Ema1, result.Macd.Ema2, result.Macd.Ema3)
+//@ ensures[C04,C05,C06,C14] "configured-as-given" result.Macd.Ema1.Period == 12 && result.Macd.Ema1.Smoothing == 2 && result.Macd.Ema2.Period == 26 && result.Macd.Ema2.Smoothing == 2 && result.Macd.Ema3.Period == 9 && result.Macd.Ema3.Smoothing == 2
 
 //@ func NewMacdStrategyWith
-//@ ensures[C06] "fresh-and-separate-objects" fresh(result) && fresh(result.Macd) && fresh(result.Macd.Ema1) && fresh(result.Macd.Ema2) && fresh(result.Macd.Ema3) && distinct(result.Macd.Ema1, result.Macd.Ema2, result.Macd.Ema3)
-//@ ensures[C06] "configured-as-given" result.Macd.Ema1.Period == period1 && result.Macd.Ema1.Smoothing == 2 && result.Macd.Ema2.Period == period2 && result.Macd.Ema2.Smoothing == 2 && result.Macd.Ema3.Period == period3 && result.Macd.Ema3.Smoothing == 2
+//@ ensures[C04,C05,C06,C14] "fresh-and-separate-objects" fresh(result) && fresh(result.Macd) && fresh(result.Macd.Ema1) && fresh(result.Macd.Ema2) && fresh(result.Macd.Ema3) && distinct(result.Macd.Ema1, result.Macd.Ema2, result.Macd.Ema3)
+//@ ensures[C04,C05,C06,C14] "configured-as-given" result.Macd.Ema1.Period == period1 && result.Macd.Ema1.Smoothing == 2 && result.Macd.Ema2.Period == period2 && result.Macd.Ema2.Smoothing == 2 && result.Macd.Ema3.Period == period3 && result.Macd.Ema3.Smoothing == 2
 
 //@ func NewQstickStrategy
-//@ ensures[C06] "fresh-and-separate-objects" fresh(result) && fresh(result.Qstick) && fresh(result.Qstick.Sma)
-//@ ensures[C06] "configured-as-given" result.Qstick.Sma.Period == 20
+//@ ensures[C04,C05,C06,C14] "fresh-and-separate-objects" fresh(result) && fresh(result.Qstick) && fresh(result.Qstick.Sma)
+//@ ensures[C04,C05,C06,C14] "configured-as-given" result.Qstick.Sma.Period == 20
 
 //@ func NewSmmaStrategy
-//@ ensures[C06] "fresh-and-separate-objects" fresh(result) && fresh(result.LongSmma) && fresh(result.ShortSmma) && distinct(result.LongSmma, result.ShortSmma)
-//@ ensures[C06] "configured-as-given" result.LongSmma.Period == 50 && result.ShortSmma.Period == 20
+//@ ensures[C04,C05,C06,C14] "fresh-and-separate-objects" fresh(result) && fresh(result.LongSmma) && fresh(result.ShortSmma) && distinct(result.LongSmma, result.ShortSmma)
+//@ ensures[C04,C05,C06,C14] "configured-as-given" result.LongSmma.Period == 50 && result.ShortSmma.Period == 20
 
 //@ func NewSmmaStrategyWith
-//@ ensures[C06] "fresh-and-separate-objects" fresh(result) && fresh(result.LongSmma) && fresh(result.ShortSmma) && distinct(result.LongSmma, result.ShortSmma)
-//@ ensures[C06] "configured-as-given" result.LongSmma.Period == longPeriod && result.ShortSmma.Period == shortPeriod
+//@ ensures[C04,C05,C06,C14] "fresh-and-separate-objects" fresh(result) && fresh(result.LongSmma) && fresh(result.ShortSmma) && distinct(result.LongSmma, result.ShortSmma)
+//@ ensures[C04,C05,C06,C14] "configured-as-given" result.LongSmma.Period == longPeriod && result.ShortSmma.Period == shortPeriod
 
 //@ func NewTrimaStrategy
-//@ ensures[C06] "fresh-and-separate-objects" fresh(result) && fresh(result.Long) && fresh(result.Short) && distinct(result.Long, result.Short)
-//@ ensures[C06] "configured-as-given" result.Long.Period == 50 && result.Short.Period == 20
+//@ ensures[C04,C05,C06,C14] "fresh-and-separate-objects" fresh(result) && fresh(result.Long) && fresh(result.Short) && distinct(result.Long, result.Short)
+//@ ensures[C04,C05,C06,C14] "configured-as-given" result.Long.Period == 50 && result.Short.Period == 20
 
 //@ func NewTripleMovingAverageCrossoverStrategy
-//@ ensures[C06] "fresh-and-separate-objects" fresh(result) && fresh(result.FastEma) && fresh(result.MediumEma) && fresh(result.SlowEma) && distinct(result.FastEma, result.MediumEma, result.SlowEma)
-//@ ensures[C06] "configured-as-given" result.FastEma.Period == 21 && result.FastEma.Smoothing == 2 && result.MediumEma.Period == 50 && result.MediumEma.Smoothing == 2 && result.SlowEma.Period == 200 && result.SlowEma.Smoothing == 2
+//@ ensures[C04,C05,C06,C14] "fresh-and-separate-objects" fresh(result) && fresh(result.FastEma) && fresh(result.MediumEma) && fresh(result.SlowEma) && distinct(result.FastEma, result.MediumEma, result.SlowEma)
+//@ ensures[C04,C05,C06,C14] "configured-as-given" result.FastEma.Period == 21 && result.FastEma.Smoothing == 2 && result.MediumEma.Period == 50 && result.MediumEma.Smoothing == 2 && result.SlowEma.Period == 200 && result.SlowEma.Smoothing == 2
 
 //@ func NewTripleMovingAverageCrossoverStrategyWith
-//@ ensures[C06] "fresh-and-separate-objects" fresh(result) && fresh(result.FastEma) && fresh(result.MediumEma) && fresh(result.SlowEma) && distinct(result.FastEma, result.MediumEma, result.SlowEma)
-//@ ensures[C06] "configured-as-given" result.FastEma.Period == fastPeriod && result.FastEma.Smoothing == 2 && result.MediumEma.Period == mediumPeriod && result.MediumEma.Smoothing == 2 && result.SlowEma.Period == slowPeriod && result.SlowEma.Smoothing == 2
+//@ ensures[C04,C05,C06,C14] "fresh-and-separate-objects" fresh(result) && fresh(result.FastEma) && fresh(result.MediumEma) && fresh(result.SlowEma) && distinct(result.FastEma, result.MediumEma, result.SlowEma)
+//@ ensures[C04,C05,C06,C14] "configured-as-given" result.FastEma.Period == fastPeriod && result.FastEma.Smoothing == 2 && result.MediumEma.Period == mediumPeriod && result.MediumEma.Smoothing == 2 && result.SlowEma.Period == slowPeriod && result.SlowEma.Smoothing == 2
 
 //@ func NewTrixStrategy
-//@ ensures[C06] "fresh-and-separate-objects" fresh(result) && fresh(result.Trix)
-//@ ensures[C06] "configured-as-given" result.Trix.Period == 15
+//@ ensures[C04,C05,C06,C14] "fresh-and-separate-objects" fresh(result) && fresh(result.Trix)
+//@ ensures[C04,C05,C06,C14] "configured-as-given" result.Trix.Period == 15
 
 //@ func NewVwmaStrategy
-//@ ensures[C06] "fresh-and-separate-objects" fresh(result) && fresh(result.Sma) && fresh(result.Vwma)
-//@ ensures[C06] "configured-as-given" result.Sma.Period == 20 && result.Vwma.Period == 20
+//@ ensures[C04,C05,C06,C14] "fresh-and-separate-objects" fresh(result) && fresh(result.Sma) && fresh(result.Vwma)
+//@ ensures[C04,C05,C06,C14] "configured-as-given" result.Sma.Period == 20 && result.Vwma.Period == 20
 // ---- end of generated constructor contracts ----
